@@ -247,6 +247,11 @@ inductive ROp
   | wpimultG (pat : String) (f : Val)
 deriving DecidableEq, Repr
 
+/-- COMPLUMP: a connection operation that changes completion numbers only. -/
+def ROp.isLump : ROp → Bool
+  | .complump .. => true
+  | _ => false
+
 /-- Connection operations write the connection channel; all others the property channel. -/
 def ROp.isConn : ROp → Bool
   | .compdat .. => true
@@ -825,7 +830,7 @@ def matchLe (rec val : Nat) : Bool := rec = 0 || val ≤ rec
 /-- The pattern of `Well::handleWELOPENConnections` / `handleCOMPLUMP` / `handleWPIMULT`: every
 connection is passed through `f`. -/
 def rebuild (c : ConnMap) (n : String) (f : Conn → Conn) : ConnMap :=
-  setKey c n ((connsOf c n).map f)
+  modify c n fun cs => cs.map f
 
 def stepC (k : Consts) (m : List String) (p : Props) (c : ConnChan) : ROp → Except Err ConnChan
   | .compdat pat i j k1 k2 state =>
